@@ -91,7 +91,7 @@ var unitTemplates = cat(
 	ut("border-spacing", "@", "3px @", "@ 3px"),
 	ut("background-position", "@ 3px", "3px @", "right @ bottom 3px", "left 3px top @", "3px 5px, @ 7px"),
 	ut("background-size", "@ 3px", "auto @", "@"),
-	noShare(ut("background-image", "linear-gradient(red @, blue)", "linear-gradient(to right, red, lime @, blue 300px)", "radial-gradient(circle at @ 3px, red, blue)", "radial-gradient(ellipse @ 7px at center, red, blue)", "radial-gradient(red @, blue)")),
+	ut("background-image", "linear-gradient(red @, blue)", "linear-gradient(to right, red, lime @, blue 300px)", "radial-gradient(circle at @ 3px, red, blue)", "radial-gradient(ellipse @ 7px at center, red, blue)", "radial-gradient(red @, blue)"),
 	ut("object-position", "@ 3px", "3px @"),
 	ut("transform-origin", "@ 3px", "3px @"),
 	ut("transform", "translate(@, 3px)", "translate(3px, @)", "translateX(@)", "translateY(@)", "rotate(10deg) translate(@)"),
@@ -104,13 +104,13 @@ var unitTemplates = cat(
 	ut("size", "@ 300px", "300px @", "@"),
 	kind("lineheight", ut("line-height", "@")),
 	kind("fontsize", ut("font-size", "@")),
-	// known defects (findings/C04): kept out of the generated cases
-	defect("border-image-outset-em", ut("border-image-outset", "@", "@ 3")),
-	defect("border-image-width-uncomputed", ut("border-image-width", "@", "@ 3")),
-	defect("grid-track-em", ut("grid-auto-columns", "@", "minmax(@, 1fr)", "fit-content(@)")),
-	defect("grid-track-em", ut("grid-auto-rows", "@")),
-	defect("grid-track-em", ut("grid-template-columns", "@ 1fr", "repeat(2, @)", "[a] @ [b]")),
-	defect("grid-track-em", ut("grid-template-rows", "@", "minmax(3px, @)")),
+	// formerly known defects (findings/C04, fixed in /repo): generated again as regression coverage
+	ut("border-image-outset", "@", "@ 3"),
+	ut("border-image-width", "@", "@ 3"),
+	ut("grid-auto-columns", "@", "minmax(@, 1fr)", "fit-content(@)"),
+	ut("grid-auto-rows", "@"),
+	ut("grid-template-columns", "@ 1fr", "repeat(2, @)", "[a] @ [b]"),
+	ut("grid-template-rows", "@", "minmax(3px, @)"),
 )
 
 var unitNamesList = []string{"px", "in", "cm", "mm", "q", "pt", "pc", "em", "rem", "ex", "ch", "%"}
@@ -227,17 +227,6 @@ func genUnits(r *rand.Rand, i int) any {
 	}
 	rule := func(sel string, decls ...string) string { return sel + "{" + joinDecls(decls...) + "} " }
 	in := unitsIn{Kind: "units", Prop: propNameOfDecl(t.Name), Decl: decl(relLit), OnRoot: fc.OnRoot}
-	if (u == "ex" || u == "ch") && (t.Name == "font-size" || t.Name == "tab-size" || t.Name == "hyphenate-limit-zone") {
-		// known defect ex-ch-recursion (process-fatal): measuring the font for ex / ch builds a text
-		// style that reads font-size, tab-size and hyphenate-limit-zone of the very style being
-		// computed -> unbounded recursion, stack exhaustion
-		return skipIn{Kind: "excluded", Reason: "ex-ch-recursion", What: decl(relLit)}
-	}
-	if fc.OnRoot && u == "rem" && t.Kind != "fontsize" && fc.Root != "" {
-		// known defect rem-on-root: on the root element rem is resolved against the initial font
-		// size (16px) instead of the root's own computed font size
-		return skipIn{Kind: "excluded", Reason: "rem-on-root", What: "html{font-size: " + fc.Root + "; " + decl(relLit) + "}"}
-	}
 	if fc.OnRoot {
 		own := fc.rootPx
 		x := expectPx(t.Kind, u, n, own, 16, own, true)
